@@ -451,6 +451,9 @@ self_test_cipher(IMB_MGR *p_mgr, const struct self_test_cipher_vector *v)
         /* test encrypt direction */
         IMB_JOB *job = IMB_GET_NEXT_JOB(p_mgr);
 
+        /* session fields are overwritten below: drop any session id left in the slot */
+        job->session_id = 0;
+
         job->hash_alg = IMB_AUTH_NULL;
         job->cipher_direction = IMB_DIR_ENCRYPT;
         job->chain_order = IMB_ORDER_CIPHER_HASH;
@@ -490,6 +493,7 @@ self_test_cipher(IMB_MGR *p_mgr, const struct self_test_cipher_vector *v)
 
         /* test decrypt direction */
         job = IMB_GET_NEXT_JOB(p_mgr);
+        job->session_id = 0;
 
         job->hash_alg = IMB_AUTH_NULL;
         job->cipher_direction = IMB_DIR_DECRYPT;
@@ -871,6 +875,9 @@ self_test_hash(IMB_MGR *p_mgr, const struct self_test_hash_vector *v)
         /* test JOB API */
         IMB_JOB *job = IMB_GET_NEXT_JOB(p_mgr);
 
+        /* session fields are overwritten below: drop any session id left in the slot */
+        job->session_id = 0;
+
         memset(msg, 0, sizeof(msg));
         memcpy(msg, v->message, v->message_size);
 
@@ -1182,6 +1189,9 @@ self_test_aead_gcm(IMB_MGR *p_mgr, const struct self_test_aead_gcm_vector *v)
         /* test JOB API */
         IMB_JOB *job = IMB_GET_NEXT_JOB(p_mgr);
 
+        /* session fields are overwritten below: drop any session id left in the slot */
+        job->session_id = 0;
+
         /* encrypt test */
         job->cipher_mode = v->cipher_mode;
         job->cipher_direction = IMB_DIR_ENCRYPT;
@@ -1223,6 +1233,7 @@ self_test_aead_gcm(IMB_MGR *p_mgr, const struct self_test_aead_gcm_vector *v)
 
         /* decrypt test */
         job = IMB_GET_NEXT_JOB(p_mgr);
+        job->session_id = 0;
 
         job->cipher_mode = v->cipher_mode;
         job->cipher_direction = IMB_DIR_DECRYPT;
@@ -1437,6 +1448,9 @@ self_test_aead_ccm(IMB_MGR *p_mgr, const struct self_test_aead_ccm_vector *v)
 
         IMB_JOB *job = IMB_GET_NEXT_JOB(p_mgr);
 
+        /* session fields are overwritten below: drop any session id left in the slot */
+        job->session_id = 0;
+
         /* encrypt test */
         job->cipher_mode = v->cipher_mode;
         job->cipher_direction = IMB_DIR_ENCRYPT;
@@ -1480,6 +1494,7 @@ self_test_aead_ccm(IMB_MGR *p_mgr, const struct self_test_aead_ccm_vector *v)
 
         /* decrypt test */
         job = IMB_GET_NEXT_JOB(p_mgr);
+        job->session_id = 0;
 
         job->cipher_mode = v->cipher_mode;
         job->cipher_direction = IMB_DIR_DECRYPT;
